@@ -151,7 +151,10 @@ fn attr_name(input: Span<'_>) -> IResult<Span<'_>, Cow<'_, str>> {
 }
 
 fn attr_name_final(input: Span<'_>) -> IResult<Span<'_>, Cow<'_, str>> {
-    map(complete::identifier, Cow::Borrowed)(input)
+    alt((
+        nom::combinator::complete(string_literal),
+        map(complete::identifier, Cow::Borrowed),
+    ))(input)
 }
 
 impl<'a> ParseEvents<'a> {
